@@ -102,6 +102,10 @@ func c07Worker(seed uint64, thorough bool, part string) int {
 	}
 	safe := func(desc string, f func() string) {
 		res := guard(30*time.Second, f)
+		if res == "TIMEOUT" {
+			// a deadline missed on a busy machine is not a hang: the same call once more with a long deadline
+			res = guard(240*time.Second, f)
+		}
 		n++
 		if res != "" {
 			fmt.Fprintf(w, "PROBLEM %s: %s\n", desc, res)
